@@ -370,10 +370,52 @@ def spanmon_shard(args):
     return agg
 
 
+def fuzz_judge(agg, d):
+    """Re-run fuzz artifacts that belong to C16: the in-process span-containment monitor, and any panic raised while a
+    diagnostic is located or rendered (span manager, report code, the annotation dependency)."""
+    import fuzzleg
+    data = d["data"]
+    desc = {"family": "fuzz", "input": data[:400].decode("latin-1")}
+    replay = {"script": run_lines(data, path="<in>", stack=120, session=(0, "-")), "fuzz_input_hex": data.hex()}
+    if d["cls"] == "monitor" and d["prop"] == PROP:
+        agg.violation({"kind": "span_outside_source", "where": "fuzz", "msg": re.sub(r"[0-9]+", "N", d["msg"])[:100]},
+                      dict(desc, monitor=d["msg"]), replay)
+    elif d["cls"] == "panic" and re.search(r"rsjsonnet-front/|sourceannot|/src/span\.rs|/report/", d["loc"]):
+        agg.violation(fuzzleg.panic_signature(d, "session"), dict(desc, panic=d["msg"], loc="%s:%s" % (d["loc"], d["line"])), replay)
+    elif d["cls"] in ("timeout", "resource"):
+        agg.inconc("fuzz_" + d["cls"])
+    else:
+        agg.count("fuzz_artifact_of_other_property:" + d["cls"])
+
+
+def fuzz_corpus_shard(args):
+    inputs = args[0]
+    agg = Agg()
+    srv = Server()
+    try:
+        for k, data in enumerate(inputs):
+            render_case(agg, srv, data, "<in>", "fuzz_corpus", [None, 5, 50][k % 3])
+    finally:
+        srv.close()
+    return agg
+
+
+def fuzz_corpus(agg, inputs):
+    agg.count("fuzz_corpus_inputs_rendered", len(inputs))
+    for a in common.pmap(fuzz_corpus_shard, [(inputs[i::16],) for i in range(16)]):
+        agg.merge(a)
+
+
 def run(tier, seed):
     t0 = time.time()
     quick = tier != "thorough"
     total = Agg()
+    if not quick:
+        # coverage-guided failing programs: span containment checked in process, the kept corpus rendered and located
+        import fuzzleg
+        import os
+        fuzzleg.run_leg(total, PROP, "fz_pipeline", int(os.environ.get("VERIF_FUZZ_SECONDS") or 600), seed + 77, 2048,
+                        fuzz_judge, fuzz_corpus)
     rng = random.Random(seed)
     cases = []
     paths = ["<in>", "dir/sub/file.jsonnet", "name with spaces.jsonnet", "\u00e9.jsonnet"]
@@ -409,6 +451,7 @@ def run(tier, seed):
             "total trace length; colour-stripped == plain; traces up to 10^4 items; (3) SpanManager round trips in "
             "three regimes (contexts up to 2^40 bytes, many small contexts, offsets straddling 2^38; span lengths "
             "around 2^25): get_span(intern_span(c,s,e)) == (c,s,e), re-interning gives the same id. "
+            "thorough tier: a coverage-guided libFuzzer campaign whose in-process monitor checks every error / stack-trace span against its source, kept corpus rendered and located like the templates. "
             "distinct_nontrivial = distinct failing sources fully rendered + distinct spans registered.")
     return common.finish(PROP, tier, seed, total, rule, t0,
                          assumptions=["columns are compared only where display width == byte offset (printable ASCII prefix)"])
